@@ -124,6 +124,80 @@ def vc_reset(ctx):
     it = interp(facts, body)
     rem = _dots_writes(it, ('remove', 'remove_entry'))
     if not rem:
+        # the other spelling: scan OUR entries and keep exactly those the argument clock does not cover
+        # (`self.dots.retain(|actor, ours| other.dots.get(actor).is_none_or(|theirs| theirs < ours))`, or through other.get(actor))
+        for bb, c in sorted(it.calls.items()):
+            if call_name(c.term) not in ('retain', 'retain_mut', 'filter', 'filter_map') or not c.args:
+                continue
+            for clo, mapping in closure_bindings(c.term):
+                items = [st for v_ in mapping.values() for st in subterms(v_) if st[0] == 'item']
+                item = items[0] if items else None
+                src = iter_source(item[1])[0] if item else ('top',)
+                if param_path(src) != (1, ('dots',)):
+                    continue
+                cb = facts.cb(clo[1])
+                ctx.analysed.add(cb.key)
+                hit = []
+
+                def S(t, mapping=mapping):
+                    return versionless(subst(t, mapping))
+
+                # NB: S substitutes the closure's own parameters; it must be applied exactly once (the function's `other` is
+                # `param 2` too, like the closure's key)
+                def is_ours(t):       # (already substituted) the stored counter of the walked entry
+                    return t[0] == 'field' and t[2] == '1' and t[1][0] == 'item'
+
+                def their(t):         # (already substituted) other's counter for the walked actor
+                    if t[0] == 'field' and t[2] == 'Some.0':
+                        t = t[1]
+                    if is_call(t, 'get') and len(t[2]) == 2:
+                        pp = param_path(t[2][0])
+                        k = versionless(t[2][1])
+                        if pp and pp[0] == 2 and k[0] == 'field' and k[2] == '0' and k[1][0] == 'item':
+                            return 'stored' if pp[1][-1:] == ('dots',) else 'get'
+                    return None
+
+                def classify(a, b, t):
+                    a, b = S(a), S(b)
+                    for x, y, orient in ((a, b, 'fwd'), (b, a, 'rev')):
+                        if their(x) and is_ours(y):
+                            hit.append(their(x))
+                            return ('cmp', orient)      # ord(their counter, our counter)
+                    return None
+
+                def atom(t):
+                    ts = S(t)
+                    if ts[0] == 'discr' and their(('field', ts[1], 'Some.0')) == 'stored':
+                        return ('map', 'present', {True: 1, False: 0})
+                    if is_call(ts, ('is_some', 'is_none')) and ts[2] and their(('field', ts[2][0], 'Some.0')) == 'stored':
+                        return 'present' if call_name(ts) == 'is_some' else ('not', 'present')
+                    return None
+                res = {}
+                for present in (True, False):
+                    for o in TOTAL:
+                        v = closure_value(facts, cb, classify=classify, bool_atom=atom, assumption={'present': present, 'cmp': o})
+                        keep = (v is True) or (isinstance(v, tuple) and v[0] == 'optsome')
+                        drop = (v is False) or v == ('optnone',)
+                        res[(present, o)] = 'keep' if keep else ('drop' if drop else '?')
+                det = {'(argument lists the actor, ord(their counter, our counter)) -> entry': {str(k): v for k, v in res.items()}}
+                stored = 'stored' in hit
+                errs = []
+                if not hit:
+                    errs.append('the scan over our entries does not compare the argument clock\'s counter for the actor with ours')
+                else:
+                    if stored and any(res[(False, o)] != 'keep' for o in TOTAL):
+                        errs.append('an entry of an actor the argument clock does not list is removed')
+                    for o in (GT, EQ):
+                        if res[(True, o)] != 'drop':
+                            errs.append('an entry not newer than the argument clock (their counter %s ours) is kept' % {'Gt': '>', 'Eq': '=='}[o])
+                    if res[(True, LT)] != 'keep':
+                        errs.append('an entry strictly newer than the argument clock is removed')
+                whole = not (set(iter_adaptors(item[1] if item and item[0] == 'item' else ('top',))) & LOSSY_ADAPTORS)
+                if not whole:
+                    errs.append('the scan does not range over all of our entries')
+                ctx.check(not errs, 'reset_remove', body, 'our entries kept exactly when the argument clock does not cover them (scan of self.dots)',
+                          errs[0] if errs else '', line=c.line, details=det)
+                return
         ctx.fail('reset_remove', body, 'reset_remove never removes an entry of dots')
         return
     bb, c = rem[0]
